@@ -681,7 +681,7 @@ impl Instruction
 		{
 			Instruction::Adc{dst, rhs} =>
 			{
-				if dst >= Register::R8 && rhs >= Register::R8
+				if dst >= Register::R8 || rhs >= Register::R8
 				{
 					return Err(EncodeError::Unrepresentable);
 				}
